@@ -522,6 +522,16 @@ func (c *SpecCtx) eqVals(a, b *Val, ea, eb *SExpr) *Term {
 	if a.T.Sort == SStr && b.T.Sort == SStr {
 		return X.E.StrEq(a.T, b.T)
 	}
+	if a.T.Sort.FP != 0 && a.T.Sort == b.T.Sort {
+		return ts.Raw("fp.eq", SBool, a.T, b.T) // IEEE equality (NaN != NaN)
+	}
+	if a.T.Sort != b.T.Sort && (a.T.Sort.BV != 0 || b.T.Sort.BV != 0 || a.T.Sort.FP != 0 || b.T.Sort.FP != 0) {
+		x, y, _ := c.bvCoerce(a, b)
+		if x.Sort.FP != 0 {
+			return ts.Raw("fp.eq", SBool, x, y)
+		}
+		return ts.Eq(x, y)
+	}
 	if a.T.Sort != b.T.Sort {
 		c.fail("comparison of different sorts %s and %s (%s, %s)", a.T.Sort.Name, b.T.Sort.Name, c.X.E.TS.Show(a.T), c.X.E.TS.Show(b.T))
 	}
@@ -558,6 +568,9 @@ func (c *SpecCtx) binary(e *SExpr) *Val {
 		return &Val{T: c.eqVals(a, b, e.Args[0], e.Args[1]), GT: boolT}
 	case "!=":
 		return &Val{T: ts.Not(c.eqVals(a, b, e.Args[0], e.Args[1])), GT: boolT}
+	}
+	if a.T != nil && b.T != nil && (a.T.Sort.BV != 0 || b.T.Sort.BV != 0 || a.T.Sort.FP != 0 || b.T.Sort.FP != 0) {
+		return c.bvBinary(e, a, b)
 	}
 	if a.T == nil || b.T == nil || a.T.Sort != SInt || b.T.Sort != SInt {
 		c.fail("arithmetic on non-integers in %q", e.Src)
@@ -968,4 +981,64 @@ func exprText(e *SExpr) string {
 		return exprText(e.Args[0]) + "." + e.Name
 	}
 	return strings.TrimSpace(e.Src)
+}
+
+// bv mode: a literal (mathematical integer) next to a bit-vector or float operand takes that operand's sort
+func (c *SpecCtx) bvCoerce(a, b *Val) (*Term, *Term, types.Type) {
+	ts := c.X.E.TS
+	conv := func(lit *Term, s *Sort) *Term {
+		if lit.Sort == s {
+			return lit
+		}
+		if lit.Op != "int" {
+			c.fail("bv mode: cannot mix %s and %s", lit.Sort.Name, s.Name)
+		}
+		if s.BV != 0 {
+			return ts.BVLit(lit.Int, s.BV)
+		}
+		return ts.FPLitDecimal(lit.Int.String(), s)
+	}
+	if a.T.Sort.BV != 0 || a.T.Sort.FP != 0 {
+		return a.T, conv(b.T, a.T.Sort), a.GT
+	}
+	return conv(a.T, b.T.Sort), b.T, b.GT
+}
+
+func (c *SpecCtx) bvBinary(e *SExpr, a, b *Val) *Val {
+	ts := c.X.E.TS
+	x, y, T := c.bvCoerce(a, b)
+	boolT := types.Typ[types.Bool]
+	if x.Sort.FP != 0 {
+		op := map[string]string{"<": "fp.lt", "<=": "fp.leq", ">": "fp.gt", ">=": "fp.geq"}[e.Op]
+		if op == "" {
+			c.fail("bv mode: float operator %s", e.Op)
+		}
+		return &Val{T: ts.Raw(op, SBool, x, y), GT: boolT}
+	}
+	signed := true
+	if T != nil {
+		_, signed = intBits(T)
+	}
+	pre := "bvu"
+	if signed {
+		pre = "bvs"
+	}
+	switch e.Op {
+	case "<":
+		return &Val{T: ts.Raw(pre+"lt", SBool, x, y), GT: boolT}
+	case "<=":
+		return &Val{T: ts.Raw(pre+"le", SBool, x, y), GT: boolT}
+	case ">":
+		return &Val{T: ts.Raw(pre+"gt", SBool, x, y), GT: boolT}
+	case ">=":
+		return &Val{T: ts.Raw(pre+"ge", SBool, x, y), GT: boolT}
+	case "+":
+		return &Val{T: ts.Raw("bvadd", x.Sort, x, y), GT: T}
+	case "-":
+		return &Val{T: ts.Raw("bvsub", x.Sort, x, y), GT: T}
+	case "*":
+		return &Val{T: ts.Raw("bvmul", x.Sort, x, y), GT: T}
+	}
+	c.fail("bv mode: operator %s", e.Op)
+	return nil
 }
